@@ -546,7 +546,10 @@ impl Cls {
         if self.submin {
             v.push("subminute-offset");
         }
-        if self.f2 {
+        // the F2 class is named only outside sub-minute folds (there F3's
+        // class already explains a failure; F2 would show at every other
+        // pre-1970 transition as well)
+        if self.f2 && !(self.fold && self.submin) {
             v.push("fraction!=0,within-1s-before-pre1970-transition");
         }
         if self.f7 {
